@@ -22,6 +22,7 @@ fn main() {
     std::env::set_var("NO_PROXY", "*");
     std::env::set_var("no_proxy", "*");
     let ctx = vmc::report::Ctx::from_args();
+    vmc::install_watchdog(if ctx.tier == vmc::report::Tier::Thorough { 6 * 3600 } else { 45 * 60 }, format!("check {}", ctx.id));
     // an application with logging enabled: every log statement's arguments are evaluated (and discarded)
     vmc::install_logger(log::LevelFilter::Trace);
     // own the system trust store: an empty one. Loading the real bundle costs ~55 ms of CPU per client
